@@ -1174,7 +1174,7 @@ assert "does not judge them either" not in PROPS["C14"]["partial_gap"]
 PROPS["C02"]["also"] = [("C06", "views"), ("C06", "rotation")]
 PROPS["C13"]["also"] = list(PROPS["C13"].get("also", [])) + [("C05", "panic")]
 
-# ---- ORACLE SOUNDNESS of the FDL monitors (agent fdlx; Proofs/FdlOracleSound1..9.v, FdlOracleSoundAll.v) --------------------------------
+# ---- ORACLE SOUNDNESS of the FDL monitors (agent fdlx; Proofs/FdlOracleSound1..10.v, FdlOracleSoundAll.v) --------------------------------
 # "The executable monitors of Model/FdlOracle.v that run on the implementation's transcripts never reject a transcript
 #  of the MODEL."  Texts only: what is proved per property, and which rules are NOT yet covered.
 _FDL_OS = ('ORACLE SOUNDNESS (Proofs/FdlOracleSound*.v): model_transcript = the event list the driver would build from a run of the model '
@@ -1201,11 +1201,12 @@ PROPS["C15"]["level_note"] += (' ' + _FDL_OS + 'C15_oracle_sound_partial: of the
     'transcript (all input histories, app_sends_data); the executable round-robin acceptor and the pass-to-self detection from the transmitted token '
     'agree with the Coq acceptors (witnessing the own pass keeps NS: FdlOracleSound4.witness_own_pass_ns).')
 PROPS["C15"]["partial_gap"] += ' Oracle soundness: the liveness rule R15_no_reply_no_timeout is NOT yet covered.'
-PROPS["C11"]["level_note"] += (' ' + _FDL_OS + 'C11_oracle_sound_partial: the rules accept_while_listening, retry_too_early, too_many_retries, '
-    'removed_too_early, heard_but_supervising are never reported on a model transcript (all input histories, app_sends_data); uses that the slot time '
-    'covers the synchronisation pause for builder-valid parameters, so a retry is never deferred to a later poll.')
-PROPS["C11"]["partial_gap"] += (' Oracle soundness: the rules accept_without_token, accept_from_stranger, offer_changes_ring_view, '
-    'supervision_never_ends are NOT yet covered.')
+PROPS["C11"]["level_note"] += (' ' + _FDL_OS + 'C11_oracle_sound_partial: of the rules of C11 only the liveness rule supervision_never_ends can be '
+    'reported on a model transcript (all input histories, app_sends_data): accept_while_listening, accept_without_token, accept_from_stranger, '
+    'offer_changes_ring_view, retry_too_early, too_many_retries, removed_too_early, heard_but_supervising never fire. Uses that the slot time covers '
+    'the synchronisation pause for builder-valid parameters (a retry is never deferred to a later poll) and that the telegrams the monitor sees '
+    'delivered are those the receive loops hand to handle_telegram.')
+PROPS["C11"]["partial_gap"] += ' Oracle soundness: the liveness rule supervision_never_ends is NOT yet covered.'
 PROPS["C12"]["level_note"] += (' ' + _FDL_OS + 'C12_oracle_sound_partial: the rules gap_poll_outside_gap, two_gap_polls_per_visit, found_not_successor, '
     'found_not_next_token, successor_changed_without_ready_reply are never reported on a model transcript (all input histories, app_sends_data).')
 PROPS["C12"]["partial_gap"] += (' Oracle soundness: the rules reply_without_request, reply_untruthful, reply_from_wrong_state, sweep_bound, '
